@@ -109,6 +109,11 @@ impl PerVisibleAlphabetConstraints {
                     ElementOrSetOperation::SetOperation(s) => {
                         fn flatten_set(elems: &mut Vec<SubtypeElements>, set: &SetOperation) {
                             elems.push(set.base.clone());
+                            // ITU-T X.691 clause 10.3.21: EXCEPT and the set that follows it
+                            // are ignored, as in `fold_constraint_set`
+                            if set.operator == SetOperator::Except {
+                                return;
+                            }
                             match &*set.operant {
                                 ElementOrSetOperation::Element(e2) => elems.push(e2.clone()),
                                 ElementOrSetOperation::SetOperation(inner) => {
@@ -505,6 +510,8 @@ fn fold_constraint_set(
     range_constraint: bool,
 ) -> Result<Option<SubtypeElements>, GrammarError> {
     let folded_operant = match &*set.operant {
+        // ITU-T X.691 clause 10.3.21: EXCEPT and the set that follows it are ignored
+        _ if set.operator == SetOperator::Except => None,
         ElementOrSetOperation::Element(e) => e.per_visible().then(|| e.clone()),
         ElementOrSetOperation::SetOperation(s) => {
             fold_constraint_set(s, char_set, range_constraint)?
